@@ -41,8 +41,8 @@ Mirrors the Go code of /repo **as it is now** (after the `fix:` commits), functi
 | `types/objectvalue.go  attributeSlice.Equals`, `equalityPositions`, `valueAt` (an instance of an Object type: by position for the same type, by attribute NAME across two types without `equality_include_type`), no `ToKey` | `veq` (`.obj`), `objPre`, `objSelAt`, `veqSel`, `OType` |
 
 Quirks reproduced on purpose: a top-level string is keyed by its raw bytes (so it can collide with another value's key:
-known finding C07-raw-string-key); `Variant`/`Enum` equality ignores member order while their keys do not (known finding
-C07-type-member-order); `Hash.Equals` compares, per distinct key *bytes*, only the last entry of the receiver with the
+known finding C07-raw-string-key); `Variant`/`Enum`/`Pattern` equality ignores member order, and so do their keys since the
+/repo fix of finding C07-type-member-order (`unorderedParams`); `Hash.Equals` compares, per distinct key *bytes*, only the last entry of the receiver with the
 last entry of the argument (so repeated keys are invisible); an `Array` of two equals the `HashEntry` with the same
 two values (both directions) and has the same key.
 
@@ -58,7 +58,11 @@ container that holds one), exactly as for a Sensitive — but they do have an `E
 
 Not modelled (no theorem speaks about them): reflected objects (`reflectedObject`), `objectType.Equals` itself (an op states the
 descriptor of the instance's type; the harness checks it against `AttributesInfo()` and checks that two catalogue types are
-`Equals` exactly when their descriptors are equal), and every type other than those listed above (in particular the String types with a size or a value, Struct, Hash, Pattern, Object).
+`Equals` exactly when their descriptors are equal), and every type other than those listed above and below (URI[..], Init with
+arguments, Timespan / Timestamp ranges, TypeSet, Object and alias types other than Data / RichData).
+
+Also modelled (rows added late): `| SemVer[range], Hash[K,V,size], Like, Runtime, Callable (parameter Tuple / return / block), Struct,
+Init[T]: XxxType.Equals / Parameters / ToKey | tyEq, tyKey, structEntryKey, acceptsUndef, rxTyKey |`.
 -/
 namespace Pcore.ValueEq
 
